@@ -4,8 +4,10 @@
 //!   RP <bo> <prefix-count> <value>            marshal through Param, read back with get_param, print value
 //!   MPR|RPR, MPX|RPX                          the same with the tree built from the borrowing variants (ArrayRef, StructRef,
 //!                                             DictRef, StringRef, ObjectPathRef, SignatureRef) / alternating owned and borrowing
+//!   MV|MVR|MVX <bo> <prefix-count> <variant>  a params::Variant pushed through the typed API (push_param(&params::Variant{sig, value}))
 //!   VR <bo> <offset> <sig> <hex>              validate_raw::validate_marshalled for every complete type of <sig> in turn
 //!   UP <bo> <offset> <nfds> <sig> <hex>       unmarshal_with_sig (dynamic decoder) for every complete type of <sig>
+//!   BV|BA|BB ...                              glue on a body built with from_parts: validate(), unmarshall_all(), unmarshal_body (see below)
 //!   CAT                                        print the catalogue
 use rbverif::wirelib::Args;
 use rbverif::{hex, unhex};
@@ -30,6 +32,27 @@ fn eval(line: &str) -> String {
                 Some(rest) => read_back_dynamic(rest),
                 None => out,
             }
+        }
+        "MV" | "MVR" | "MVX" => {
+            // a params::Variant pushed through the TYPED API (impl Marshal for params::Variant): the value must be a variant
+            let flavour = Flavour::of_op(op);
+            let byteorder = rbverif::wirelib::bo(&mut a);
+            let prefix = a.num();
+            let p = param_from_flavour(&mut a, flavour);
+            let mut ordered = Vec::new();
+            param_tok(&p, &mut ordered, false);
+            let variant = match p {
+                rustbus::params::Param::Container(rustbus::params::Container::Variant(v)) => v,
+                _ => return "notavariant".to_string(),
+            };
+            let mut msg = rustbus::message_builder::MarshalledMessage::new();
+            msg.body = MarshalledMessageBody::with_byteorder(byteorder);
+            for i in 0..prefix {
+                msg.body.push_param((i as u8).wrapping_mul(37).wrapping_add(1)).unwrap();
+            }
+            let r = msg.body.push_param(&*variant);
+            let res = if r.is_ok() { "ok" } else { "err" };
+            format!("{} sig={} buf={} nfds={} val={}", res, hex(msg.get_sig().as_bytes()), hex(msg.get_buf()), msg.body.get_fds().len(), ordered.join(" "))
         }
         "MP" | "RP" | "MPR" | "RPR" | "MPX" | "RPX" => {
             // ..R: the tree is built from the borrowing variants (ArrayRef, StructRef, DictRef, StringRef, ..), ..X: alternating
@@ -79,6 +102,60 @@ fn eval(line: &str) -> String {
             let mut orig = Vec::new();
             param_tok(&p, &mut orig, true);
             format!("{} validate={} {} left={} same={} val={}", res, valid, trailer, parser.sigs_left(), orig == out, out.join(" "))
+        }
+        "BV" | "BA" | "BB" => {
+            // glue around the decoders, on a body built from arbitrary parts:
+            //   BV <bo> <nfds> <sig hex> <hex>            MarshalledMessageBody::from_parts(..).validate()           -> ok | err
+            //   BA <bo> <nfds> <sig hex> <hex>            MarshalledMessage{body: from_parts(..)}.unmarshall_all()  -> ok <params> | err
+            //   BB <bo> <offset> <nfds> <sig hex> <hex>   wire::unmarshal::unmarshal_body(bo, types of sig, buf, fds, offset) -> ok <params> | err | badsig
+            // the signature is given in hex (it may be empty or invalid)
+            let byteorder = rbverif::wirelib::bo(&mut a);
+            let offset = if op == "BB" { a.num() as usize } else { 0 };
+            let nfds = a.num() as usize;
+            let sig = String::from_utf8(unhex(a.next())).unwrap();
+            let bytes = unhex(a.next());
+            let fds: Vec<UnixFd> = (0..nfds).map(|_| UnixFd::new(nix::unistd::dup(2).unwrap())).collect();
+            rbverif::wirelib::set_fd_table(&fds);
+            let res = match op {
+                "BV" => {
+                    let body = MarshalledMessageBody::from_parts(bytes, 0, fds, sig, byteorder);
+                    if body.validate().is_ok() { "ok".to_string() } else { "err".to_string() }
+                }
+                "BA" => {
+                    let mut msg = rustbus::message_builder::MarshalledMessage::new();
+                    msg.body = MarshalledMessageBody::from_parts(bytes, 0, fds, sig, byteorder);
+                    match msg.unmarshall_all() {
+                        Ok(m) => {
+                            let mut out = Vec::new();
+                            for p in &m.params {
+                                param_tok(p, &mut out, true);
+                            }
+                            format!("ok {} {}", m.params.len(), out.join(" "))
+                        }
+                        Err(_) => "err".to_string(),
+                    }
+                }
+                _ => {
+                    if offset > bytes.len() {
+                        return "badoffset".to_string();
+                    }
+                    match signature::Type::parse_description(&sig) {
+                        Err(_) => "badsig".to_string(),
+                        Ok(types) => match rustbus::wire::unmarshal::unmarshal_body(byteorder, &types, &bytes, &fds, offset) {
+                            Ok(params) => {
+                                let mut out = Vec::new();
+                                for p in &params {
+                                    param_tok(p, &mut out, true);
+                                }
+                                format!("ok {} {}", params.len(), out.join(" "))
+                            }
+                            Err(_) => "err".to_string(),
+                        },
+                    }
+                }
+            };
+            rbverif::wirelib::set_fd_table(&[]);
+            res
         }
         "VR" | "UP" => {
             let byteorder = rbverif::wirelib::bo(&mut a);
